@@ -44,6 +44,25 @@ claim("C17",
       "before closing its communicator on every live-session path. Structural, not a delivery proof.",
       "Not decided: timing, half-close, smux FIN ordering, waking a reader blocked in the DNS in-queue.")
 
+claim("C04",
+      "path-fact enumeration on SSA (guards on every success return), provenance of stored/returned connections, typestate dominance of the secure flag by TLS handshake success, flag/carrier correlation per endpoint",
+      "Decides the guard and typestate structure that keeps security from degrading, on every path: each Upstream.Connect success return is under "
+      "!mustSecure or cc.Secure(); the stored connection derives from the handshake result; the secure flag is set true only where dominated by a "
+      "successful crypto/tls handshake (directly or via a helper whose success returns are so dominated) and the TLS connection is what is returned; "
+      "once StartTLS is requested both roles return the TLS connection or an error, never the plain connection; StartTLS is advertised only under "
+      "!secure; the secure argument of AcceptConnection/NewClientConnection can be true only with a TLS-built carrier (tls.Dial/Listen/ServeTLS/"
+      "handshake/TLSConfig/scheme tests). Does not observe the wire.",
+      "Not decided: clear-text payload on the wire, crypto/tls itself.")
+
+claim("C05",
+      "who-may-write tables, path-fact enumeration, config provenance slices, call-site argument classification, sibling constant agreement",
+      "Decides the configuration-to-TLS dataflow of peer authentication: only the two allowed writers can disable verification (under the user's option / "
+      "the stdio+tls branch) and no verification callbacks exist; every success path of the server config with requireClientCert stores "
+      "RequireAndVerifyClientCert and the config is never dereferenced on the failure path; a configured CA reaches RootCAs and ClientCAs; the StartTLS "
+      "ServerName is the port-less host at every call site; every TLS primitive takes its config from the manager; both ends of a password-protected UDP "
+      "endpoint agree on KDF constants, salt scheme, cipher constructor, shards, and pass the cipher on. Structural; chain validation is crypto/x509's.",
+      "Not decided: x509 chain validation and expiry, kcp cipher behaviour.")
+
 for pid in ["C01","C02","C03","C04","C05","C06","C07","C08","C09","C10","C11","C12","C13","C14","C15","C16","C17","C18"]:
     if pid not in P:
         na(pid, PENDING)
